@@ -127,6 +127,10 @@ func (rt *runtime) cmplEvaluateNodeAssignExpression(node *nodeAssignExpression) 
 	right := rt.cmplEvaluateNodeExpression(node.right)
 	rightValue := right.resolve()
 
+	// The operator and PutValue are applied here: the errors they raise (an invalid array
+	// length) and the calls they make (a setter, valueOf) are positioned at the assignment.
+	rt.scope.frame.offset = int(node.idx)
+
 	result := rightValue
 	if node.operator != token.ASSIGN {
 		result = rt.calculateBinaryExpression(node.operator, leftValue, rightValue)
